@@ -334,7 +334,13 @@ func (p *flagParser) parseStringDQuote() (string, error) {
 		}
 
 		i += off
-		if in[i-1] != '\\' {
+		// the quote closes the string unless it is escaped, that is preceded
+		// by an odd number of backslashes
+		escaped := false
+		for j := i - 1; j > 0 && in[j] == '\\'; j-- {
+			escaped = !escaped
+		}
+		if !escaped {
 			break
 		}
 		off = i + 1
